@@ -4,7 +4,7 @@ package main
 
 // Stand-alone entry of the C19 census, used by the `generate` step of
 // bin/props_d/c19.py before the Lean build:
-//   go build -tags census19main -o .build/census19 census19.go census19_main.go
+//   go build -tags census19main -o .build/census19 census19.go census19_imports.go census19_main.go
 //   census19 <repo> <expected.json> <out.lean> [<out-sites.json>]
 // (file-list build: stdlib only, independent of the rest of harness/cc).
 
